@@ -66,7 +66,8 @@ class WhitespaceParser:
 
     def consume(self, typ):
         """Eat a token of given type"""
-        assert self.peak == typ
+        if self.peak != typ:
+            self.error(f"Expected {typ!r} but got {self.peak!r}")
         return self.next_token()
 
     def error(self, msg):
@@ -206,39 +207,41 @@ class Push:
 
 class Binop:
     def execute(self, context):
-        a = context.stack.pop(-1)
-        b = context.stack.pop(-1)
-        context.stack.append(self.op(a, b))
+        # The left operand was pushed first:
+        right = context.stack.pop(-1)
+        left = context.stack.pop(-1)
+        context.stack.append(type(self).op(left, right))
 
 
 class Add(Binop):
     op = operator.add
 
 
-class Substract:
+class Substract(Binop):
     op = operator.sub
 
 
-class Multiply:
+class Multiply(Binop):
     op = operator.mul
 
 
-class Division:
+class Division(Binop):
     op = operator.floordiv
 
 
-class Modulo:
+class Modulo(Binop):
     op = operator.mod
 
 
 class OutputCharacter:
     def execute(self, context):
-        char = chr(context.stack[-1])
+        char = chr(context.stack.pop(-1))
         print(char, end="")
 
 
 class OutputNumber:
-    pass
+    def execute(self, context):
+        print(context.stack.pop(-1), end="")
 
 
 class EndProgram:
